@@ -2,6 +2,9 @@
 """Regenerates MANIFEST.json from the table below (kept in one place so it stays valid)."""
 import json, subprocess
 CHECKS = {
+ "C18": dict(level="exploration", tech="invariant + history oracle over random API histories on two stores sharing one file, CacheData-level merge/clean-up with arbitrary timestamps, corrupt-file corpus, and a multi-process writer/reader stress run observing the shared file",
+             text="Every operation of random histories on the real BootstrapCacheStore is followed by bound/form/merge-superset/save-load checks; clean-up is judged on arbitrary timestamps; corrupt and hostile files must not crash; 4-10 real processes flush concurrently while a reader requires every load of an existing file to succeed. Exploration: unbounded histories and interleavings.",
+             note="Bounds judged where the code promises them (after add/clean-up/load); stress run is nondeterministic but its oracle is interleaving-sound.", ref="DESIGN.md §4 C18"),
  "C08": dict(level="exploration", tech="online shadow-model monitor over random call traces on the real ReplicationFetcher (guarded wrapper), virtual time by deadline ageing, event capture",
              text="Random traces of advertisements/arrivals/completions/range+fullness updates/timer expiries are executed on the real fetcher; after every call returned fetches, queue snapshots and emitted events are judged by ten oracle clauses plus a bounded-progress phase. Exploration: the interleaving space is unbounded; the oracle is per-step and exact for the clauses it encodes.",
              note="Virtual time shifts the stored Instant deadlines through a guarded hook; store contents change only via notified puts; liveness restated as bounded progress (ceil(U/20)+7 rounds).", ref="DESIGN.md §4 C08"),
